@@ -282,9 +282,29 @@ func (p *printer) subshell(x *ast.Subshell) {
 		p.newline()
 		p.indent()
 	} else {
+		if p.leadingSubshell(x.List[0]) {
+			// avoid "(("
+			p.space()
+		}
 		p.command(x.List[0])
 	}
 	p.w.WriteByte(')')
+}
+
+// leadingSubshell reports whether c starts with a subshell.
+func (p *printer) leadingSubshell(c ast.Command) bool {
+	switch c := c.(type) {
+	case ast.List:
+		return len(c) != 0 && p.leadingSubshell(c[0])
+	case *ast.AndOrList:
+		return p.leadingSubshell(c.Pipeline)
+	case *ast.Pipeline:
+		return c.Bang.IsZero() && p.leadingSubshell(c.Cmd)
+	case *ast.Cmd:
+		_, ok := c.Expr.(*ast.Subshell)
+		return ok
+	}
+	return false
 }
 
 func (p *printer) group(x *ast.Group) {
@@ -637,6 +657,10 @@ func (p *printer) cmdSubst(w *ast.CmdSubst) {
 		p.newline()
 		p.indent()
 	} else {
+		if w.Dollar && p.leadingSubshell(w.List[0]) {
+			// avoid "$(("
+			p.space()
+		}
 		p.command(w.List[0])
 	}
 	if w.Dollar {
